@@ -309,6 +309,23 @@ def a1(rep, u, f):
 
 
 # ---------------------------------------------------------------- A2
+def describe_store(f, i):
+    """which part of the container a store changes: a field of the object (by name) or memory it owns"""
+    p = i.ops[1]
+    d = f.defs.get(p.v) if p.k == 'reg' else None
+    if d is not None and d.op == 'gep' and d.x['bt'].k == 'struct' and len(d.ops) >= 3 and d.ops[-1].k == 'int' and d.ops[0].k == 'reg' \
+            and any(pn == d.ops[0].v for pt, pn in f.params):
+        sname = d.x['bt'].a.replace('struct.', '')
+        try:
+            import dwarf
+            md = dwarf.MD(f.module)
+            mem = md.structs().get(sname)['members']
+            return 'store to %s.%s' % (sname, mem[d.ops[-1].v]['name'])
+        except Exception:
+            return 'store to field %d of %s' % (d.ops[-1].v, sname)
+    return 'store into container state'
+
+
 def effect_instrs(f, croots, fall, allfns, u):
     """instructions of f that mutate container state: [(instr, description)]"""
     out = []
@@ -323,7 +340,7 @@ def effect_instrs(f, croots, fall, allfns, u):
                 # through a pointer loaded from elsewhere (e.g. a node taken from the ring): check provenance
                 pass
             if touches_container(roots, croots):
-                out.append((i, 'store into container state'))
+                out.append((i, describe_store(f, i)))
         elif i.op == 'call':
             cn = callee_name(i)
             if cn is None:
@@ -458,7 +475,14 @@ def a2(rep, u, f, fall, allfns):
                 if after_same or not path.all_paths_cross(f, p.block, e.block, S):
                     probs.append('%s at %s can follow a failed %s (no success test on some path)' % (desc, f.loc(e), what))
         if probs:
-            rep.bad('A2', sym, '; '.join(probs[:3]), loc=loc, key='%s: mutation around failing %s' % (f.name, what))
+            # one finding per (mutation kind, before/after): a known finding names exactly one of them
+            seen = set()
+            for pr in probs:
+                kind = pr.split(' at ')[0] + (' before' if 'can precede' in pr else ' after')
+                if kind in seen:
+                    continue
+                seen.add(kind)
+                rep.bad('A2', '%s{%s}' % (sym, kind), pr, loc=loc, key='%s: %s failing %s' % (f.name, kind, what))
         else:
             rep.ok('A2', sym, 'no container mutation precedes %s; every later mutation is behind an edge establishing success (%d effect sites, %d success edges)'
                    % (what, len(effs), len(S)), loc=loc, sample={'fn': f.name, 'failure_point': what, 'success_edges': ['%s->%s' % (a.name, b.name) for a, b in S][:4]})
